@@ -170,11 +170,13 @@ def build(tier, seed):
     plan = Plan("C25", level="proof")
     plan.explanation = (
         "fold_global's real body is executed symbolically for an operation list of symbolic length over abstract letters and a real scale "
-        "factor; floor / round-half-even / int are modelled exactly as the code applies them, over the reals; reversed slices and list "
-        "repetition become terms of recursively defined spec functions (python slice.indices semantics, cross-checked against CPython on "
-        "every run). The postcondition states the fold counts, the exact shape of the new list, the gate count (exact and within 1 of "
-        "lambda*n) and that the new word has the same product as the original in every group where adjoint(x) maps to the inverse of x; "
-        "the laws about the spec functions are discharged as base + step lemma pairs.")
+        "factor; floor / round-half-even / int are modelled exactly as the code applies them, over the reals; reversed slices, list "
+        "repetition and the adjoint comprehension become terms of recursively defined spec functions (python slice.indices semantics, "
+        "cross-checked against CPython on every run). Program obligation: the returned tape's operations are EXACTLY "
+        "U ++ (rev(U+) ++ U)^folds ++ (rev(U+[n-k:]) ++ U[n-k:] if k) with folds / k the program-text counts. Lemma obligations (no program "
+        "involved): those counts are floor((lambda-1)/2) and round_half_even(frac*n/2) with 0 <= k <= n; the shape has n*(1+2*folds)+2k "
+        "operations, which is within 1 of lambda*n; the shape has the same product as U in every group where adjoint(x) maps to the "
+        "inverse of x. The laws about the spec functions are base + step lemma pairs; channels are rejected (ValueError).")
     plan.trusted_base = ["vf/pyvc encoder (Python subset semantics)", "z3 sequences, linear/nonlinear arithmetic, EUF with quantified group axioms",
                          "induction principle over naturals / finite sequences (meta-level) for the lemma pairs base + step",
                          "the defining equations of rev / rep / adjoints / product in this file"]
@@ -191,15 +193,27 @@ def build(tier, seed):
 
     def m_floor(it, args, kw):
         x = real_of(args[0])
+        if z3.is_rational_value(z3.simplify(x)):                      # a concrete argument: a concrete result
+            q = z3.simplify(x)
+            k = q.numerator_as_long() // q.denominator_as_long()
+            return FloatV(z3.RealVal(k), k)
         k = z3.ToInt(x)
         return FloatV(z3.ToReal(k), k)
 
     def m_round(it, args, kw):
         r = it.b_round([args[0]], {}, None)
+        if isinstance(r, z3.ExprRef) and z3.is_int_value(z3.simplify(r)):
+            r = z3.simplify(r).as_long()
         return r if isinstance(r, int) else FloatV(z3.ToReal(r), r)
 
+    def m_adjoint(it, args, kw):
+        x = args[0]
+        if isinstance(x, z3.ExprRef) and x.sort() == LabelSort:
+            return ADJ(x)
+        return z3.Const(it.ctx.fresh_name("adjoint_of_nonletter"), LabelSort)      # e.g. of a channel: some operator
+
     w = World(MIT, functions=["_divmod"], stubs={"Tape": (STUBS, {"operations": SeqT(Label)}), "Channel": (STUBS, {})},
-              extra_builtins={"math.floor": m_floor, "math.round": m_round, "adjoint": lambda it, a, k: ADJ(a[0])})
+              extra_builtins={"math.floor": m_floor, "math.round": m_round, "adjoint": m_adjoint})
 
     # ---- bounded cross-check of the slice model against CPython -------------------------------------------------------------------
     def slice_selfcheck():
@@ -451,7 +465,7 @@ def build(tier, seed):
         Case("circuit-with-a-channel-is-rejected",
              {"tape": T("build", lambda ctx, name: Rec(w.classes["Tape"], {"operations": PyList([z3.Const(ctx.fresh_name("op"), LabelSort),
                                                                                                  Rec(w.classes["Channel"], {})])}),
-                        gen=lambda rng: {"__class__": "Tape", "operations": ["L0", {"__class__": "Channel"}]}), "scale_factor": Float},
+                        gen=lambda rng: {"__class__": "Tape", "operations": ["L0", {"__class__": "Channel"}]}), "scale_factor": T("const", 3.0)},
              ensures=lambda o, r, nw: False, raises={"ValueError": lambda o: True}, size_bounded=True, native_call=call_fold)])
     dm = FnContract(w, "_divmod", [
         Case("divisor-2", {"a": Float, "b": T("const", 2)},
